@@ -93,6 +93,15 @@ def gen_cases(tier, seed):
                                            balanced=balanced, fam=fam, n=n, L=Lc, rs=rs,
                                            xc=("nested", "numpy")[(i + seed) % 2],
                                            yseries=bool(((i + seed) // 2) % 2))
+    # the same classifier object was fitted before on a panel with another (larger) label set
+    for name in P.CLASSIFIERS:
+        for lab in ("01", "ab", "neg"):
+            for rs in (0, 1):
+                fam, n, L = panels[0]
+                Lc = 16 if (name == "MUSE" and tier == "quick") else L
+                yield dict(kind="clf", est=name, opt=0, cols=P.CLF_COLS[name][-1], labels=lab,
+                           balanced=True, fam=fam, n=n, L=Lc, rs=rs, xc="nested", yseries=False,
+                           prefit=True)
     # the forests under n_jobs > 1 (joblib threading backend): n_estimators is not a multiple of
     # the number of jobs
     for name in ("TSF", "RISE", "STSF"):
@@ -174,6 +183,10 @@ def _run_case(case):
     mk = lambda Z: P.container(Z, case["xc"], "dim")  # noqa: E731
 
     clf = P.make_classifier(name, case["rs"], case["opt"], case.get("n_jobs"))
+    if case.get("prefit"):
+        other = ["x", "b", "zz", "a", "q"]  # five labels, none of them need to occur later
+        Xo, kso = P.train_panel(case["n"] + 3, 5, True, nc, L, (fam + 1) % 3)
+        call(lambda: clf.fit(mk(Xo), P.label_array(other, kso)))
     o = call(lambda: clf.fit(mk(X), y))
     res.outcome("%s:fit:%s" % (name, o.kind))
     if not o.ok:
